@@ -218,6 +218,19 @@ def c04(view, info=None):
                     '%s (%s) counter[%s]=%d, true count %d' %
                     (node.name, node.level, aff,
                      node.affinity_counters[aff], true[aff]))
+        # ... and by the instances' own view (where each instance says it is)
+        below = {server.name for server in subtree_servers(node)}
+        mine = collections.Counter(
+            view.decl_apps[aname]['aff']
+            for aname, app in cell.apps.items() if app.server in below)
+        for aff in set(mine) | set(node.affinity_counters):
+            if node.affinity_counters[aff] != mine[aff]:
+                raise Violation(
+                    'c04.counter',
+                    '%s (%s) counter[%s]=%d, but %d instances say they are '
+                    'placed below it' %
+                    (node.name, node.level, aff,
+                     node.affinity_counters[aff], mine[aff]))
 
 
 # ---------------------------------------------------------------- C05
